@@ -153,6 +153,26 @@ fn main() {
             println!("build={} profile={} violations={}", subj::BUILD, subj::PROFILE, l.viols.len());
             std::process::exit(if l.viols.is_empty() { 0 } else { 1 });
         }
+        "dump" => {
+            // dump <PROP> <tier> <space> <chunk>: one line per case of the chunk: index, outcome digests, sample
+            if args.len() < 6 {
+                usage();
+            }
+            let tier = tier_of(&args[3]);
+            let chunk: u64 = args[5].parse().unwrap_or_else(|_| usage());
+            let sp = props::spaces(&args[2], tier)
+                .into_iter()
+                .find(|s| s.name == args[4])
+                .unwrap_or_else(|| std::process::exit(2));
+            let lo = chunk * par::CHUNK;
+            let hi = (lo + par::CHUNK).min(sp.size);
+            for i in lo..hi {
+                let l = par::run_one(&sp, i);
+                let dig: Vec<String> = l.trace.iter().map(|d| format!("{:x}", d)).collect();
+                let smp = l.samples.first().map(|(_, j)| j.render()).unwrap_or_default();
+                println!("{}\t{}\t{}", i, dig.join(","), smp);
+            }
+        }
         "hist" => {
             if args.len() < 4 {
                 usage();
